@@ -18,7 +18,9 @@ stochastic program.  Literal model of what the code does:
   would raise `IndexError` (cannot happen for portfolio problems).  `If` is used by position for `l`,
   `u`, `c`, the cost samples and the columns of `A`, and by label membership for the mapping.
 * new variables: `nS` copies of the future variables appended in sample order; `l`, `u` tiled;
-  `c`: future entries divided by `nS+1`, then per sample the future entries of the sample cost
+  `c`: first the entries of straddling present variables (`slpStraddle`: present, but with some mapping row at a
+  future step) are replaced by the mean of the own cost and the sample costs (`presentCosts`); then the
+  future entries are divided by `nS+1`, then per sample the future entries of the sample cost
   vector divided by `nS+1`; `b`, `cType` repeated `nS+1` times; matrix: original rows, then per sample
   `i` the rows with present columns kept and future column `j` moved to
   `m + i*n_f + rank_f j` (`slpEmbed`; `rank_f = cumsum(If) - 1`).
@@ -82,6 +84,33 @@ def scaleSel (k : Rat) : List Bool → List Rat → List Rat
   | b :: bs, c :: cs => (if b then c / k else c) :: scaleSel k bs cs
   | _, cs => cs
 
+/-- `Ipf`: the present variables (not in `If`) that have SOME mapping row at a future step — e.g. the variable of
+    an asset on a coarser frequency whose block starts in the present and ends in the future
+    (`Ipf[ind_f[ind_f<m]] = True; Ipf = Ipf & ~If`; only rows of the original mapping have labels `< m`) -/
+def slpStraddle (P : Problem) (F : List Nat) : List Bool :=
+  (List.range P.n).map fun j =>
+    !(slpFutVars P F).contains j && P.mapping.any fun m => m.var == j && F.contains m.step
+
+/-- pointwise sum of two vectors -/
+def addVec : List Rat → List Rat → List Rat
+  | a :: as, b :: bs => (a + b) :: addVec as bs
+  | _, _ => []
+
+/-- `c + sum(myc for myc in c_samples)` -/
+def totalCosts (c : List Rat) : List (List Rat) → List Rat
+  | [] => c
+  | s :: rest => addVec s (totalCosts c rest)
+
+/-- entries selected by `sel` are replaced by `tot/k`, the others keep `c` -/
+def meanSel (k : Rat) : List Bool → List Rat → List Rat → List Rat
+  | b :: bs, c :: cs, t :: ts => (if b then t / k else c) :: meanSel k bs cs ts
+  | _, cs, _ => cs
+
+/-- `c[Ipf] = (c[Ipf] + sum(myc[Ipf] for myc in c_samples))/(nS+1)`: a straddling present variable gets the MEAN
+    of its cost over the original and the samples (since commit 20639b0) -/
+def presentCosts (k : Rat) (strad : List Bool) (c : List Rat) (samples : List (List Rat)) : List Rat :=
+  meanSel k strad c (totalCosts c samples)
+
 /-- the appended cost blocks: `hstack(myc[If]/(nS+1) for myc in c_samples)` -/
 def sampleCosts (k : Rat) (mask : List Bool) : List (List Rat) → List Rat
   | [] => []
@@ -122,7 +151,7 @@ def makeSlp (P : Problem) (futureSteps : List Nat) (costSamples : List (List Rat
   else if P.l.length ≠ P.n ∨ P.u.length ≠ P.n then .error .index  -- `l[If]`, `u[If]`
   else if costSamples.any (fun cs => cs.length ≠ P.n) then .error .index   -- `myc[If]`
   else .ok
-    { c := scaleSel k mask P.c ++ sampleCosts k mask costSamples,
+    { c := scaleSel k mask (presentCosts k (slpStraddle P futureSteps) P.c costSamples) ++ sampleCosts k mask costSamples,
       l := P.l ++ tile (maskSel mask P.l) nS,
       u := P.u ++ tile (maskSel mask P.u) nS,
       rows := P.rows ++ sampleRows mask P.n P.rows 0 nS,
